@@ -3,7 +3,7 @@
 import numpy as np
 
 from .. import oracles
-from ..gridutil import amax, argmax_where, case_class, contour_points
+from ..gridutil import amax, argmax_where, case_class, contour_points, inbox
 from ..rec import rec
 
 PROPERTY = "C06"
@@ -73,6 +73,8 @@ def run(cap, levels=4):
     nsa = 0
     wsa_q = 0.0
     nsep_skipped = [0]
+    nbox_skipped = [0]
+    Lbox = oracles.length_scale(eq)
     for group in mesh.y_groups:
         first = group[0]
         periodic = first.connections["lower"] is not None
@@ -85,6 +87,11 @@ def run(cap, levels=4):
                 if any(abs(pv - ps) <= 1e-9 * max(1.0, abs(ps)) for ps in getattr(eq, "psi_sep", [])) and len(getattr(eq, "x_points", [])) > 0:
                     # the field-line integral diverges logarithmically on a separatrix
                     nsep_skipped[0] += 1
+                    continue
+                # a chain with a point outside the psi data box: |grad psi| of the interpolated
+                # psi is not defined there (gridutil.psi_box), so the oracle has no integrand
+                if not all(bool(np.all(inbox(eq, *contour_points(r.contours[ic]).T, margin=2e-4 * Lbox))) for r in group):
+                    nbox_skipped[0] += 1
                     continue
                 total = sum(float(np.sum(np.abs(T(r, ic)))) for r in group)
                 tol = 5e-3 * scale * total + 1e-9
@@ -126,6 +133,8 @@ def run(cap, levels=4):
                         wsa_q = max(wsa_q, abs(sa / (2 * np.pi * q) - 1.0))
     out.append(rec("zShift=integral Bt/(R|Bp|) ds from the chain start", cls, npts, worst, 1.0, where=where, note="residual in units of 5e-3*(100/Nfine)^2*|total|+1e-9"))
     out.append(rec("separatrix contours excluded (integral singular at the X-point)", cls, nsep_skipped[0], 0, 0))
+    if nbox_skipped[0]:
+        out.append(rec("informational: chains with points outside the psi data box left out", cls + "|outside-box", nbox_skipped[0], 0, 0))
     out.append(rec("zShift continuous across joins (except the closing core join)", cls, njoin, jump, 1e-10))
     if nsa:
         out.append(rec("ShiftAngle=loop integral=jump at the closing join", cls, nsa, wsa, 1.0))
